@@ -30,7 +30,7 @@ VERSION = 1
 BUDGET = {'quick': 50, 'thorough': 600}
 CHUNK = {'quick': 10, 'thorough': 20}
 RULE = ('one case = one seeded cache content (6-30 tiles on levels 0-3 stored at seeded simulated times, some sharing a '
-        'second, plus foreign objects: a second cache, lock files, stray files) x one cleanup task (level list / range / open or '
+        'second, plus foreign objects: a second cache, lock files, stray files) (or, deep variant, tiles around the bundle borders of levels 8/9 of a ten-level pyramid) x one cleanup task (level list / range / open or '
         'zero-ended range / levels beyond the grid, remove_all / remove_before as absolute time, relative age or file mtime / '
         'default, full extent or coverage: bbox in the grid SRS or EPSG:4326, edge-hugging bbox, polygon, two boxes) on one '
         'backend+layout in a seeded fixed-offset local time zone, readdir order permuted; non-trivial = the task had to remove at least one tile and keep at '
